@@ -850,7 +850,7 @@ static void overwrite_item(cJSON * const root, const cJSON replacement)
         return;
     }
 
-    if (root->string != NULL)
+    if ((root->string != NULL) && !(root->type & cJSON_StringIsConst))
     {
         cJSON_free(root->string);
     }
@@ -937,9 +937,13 @@ static int apply_patch(cJSON *object, const cJSON *patch, const cJSON_bool case_
             /* the string "value" isn't needed */
             if (object->string != NULL)
             {
-                cJSON_free(object->string);
+                if (!(object->type & cJSON_StringIsConst))
+                {
+                    cJSON_free(object->string);
+                }
                 object->string = NULL;
             }
+            object->type &= ~cJSON_StringIsConst;
 
             status = 0;
             goto cleanup;
